@@ -17,6 +17,18 @@ What is extracted from the sources (Python ``ast``, nothing is imported or run):
   the call is guarded by ``if param is None: ... else: <call>``, and which
   registry class the parameter's type annotation names.
 
+* the text of ``class AliasedFactory`` itself is PINNED (``PINNED_ALIASED_FACTORY``): the
+  Coq model ``C08/Model.v`` (``run``: stack, ``seen``, ``match``, comparison of
+  ``_registration_index``; the hypothesis "registration indices are distinct and grow with
+  every class creation") was written for exactly these statements.  Docstrings aside, the
+  class body must be the pinned one statement for statement (``ast.dump`` equality), and
+  nothing else in the package may assign ``_registration_index`` / ``_num_registered`` or
+  define ``__init_subclass__``.  Differences are returned as ``reg["pin_problems"]``.  A textual
+  difference is not by itself a defect (behaviour-preserving rewrites exist): harness/c08.py logs
+  and counts it, doubles the correspondence on run-time class hierarchies (which then is the
+  only tie of from_alias to the model) and reports it as a broken tie only when its switch
+  ``PIN_IS_FATAL`` is set.
+
 Fail closed: any construct that is not recognised raises ``Unsupported`` and the
 check treats the tie as broken.
 """
@@ -33,6 +45,114 @@ ROOT = ("alias", "AliasedFactory")
 FROM_ARG = ("alias", "alias_factory_subclass_from_arg")
 MUTATORS = {"add", "update", "discard", "remove", "clear", "pop", "difference_update",
             "intersection_update", "symmetric_difference_update"}
+
+
+# The source text of alias.AliasedFactory that coq/C08/Model.v models (docstrings removed).
+PINNED_ALIASED_FACTORY = '''
+class AliasedFactory(abc.ABC):
+    aliases: Set[str] = set()
+
+    _num_registered: int = 0
+    _registration_index: int = 0
+
+    def __init_subclass__(cls, **kwargs):
+        super().__init_subclass__(**kwargs)
+        AliasedFactory._num_registered += 1
+        cls._registration_index = AliasedFactory._num_registered
+
+    @classmethod
+    def from_alias(cls: Type[T], alias: str, *args, **kwargs) -> T:
+        match = None
+        stack = [cls]
+        seen = set()
+        while stack:
+            subclass = stack.pop()
+            if subclass in seen:
+                continue
+            seen.add(subclass)
+            stack.extend(subclass.__subclasses__())
+            if alias in subclass.aliases and (
+                match is None
+                or subclass._registration_index > match._registration_index
+            ):
+                match = subclass
+        if match is None:
+            raise ValueError(f"Cannot find subclass with alias '{alias}'")
+        return match(*args, **kwargs)
+'''
+PINNED_ATTRS = ("_num_registered", "_registration_index")
+
+
+def _strip_docstrings(body):
+    """Statements of a class / function body without bare string expressions (docstrings,
+    attribute docstrings); function bodies are stripped recursively."""
+    out = []
+    for st in body:
+        if isinstance(st, ast.Expr) and isinstance(st.value, ast.Constant) and isinstance(st.value.value, str):
+            continue
+        if isinstance(st, (ast.FunctionDef, ast.AsyncFunctionDef)):
+            st = type(st)(**{f: getattr(st, f, None) for f in st._fields})
+            st.body = _strip_docstrings(st.body) or [ast.Pass()]
+        out.append(st)
+    return out
+
+
+def _item_name(st):
+    if isinstance(st, (ast.FunctionDef, ast.AsyncFunctionDef, ast.ClassDef)):
+        return st.name
+    if isinstance(st, ast.AnnAssign) and isinstance(st.target, ast.Name):
+        return st.target.id
+    if isinstance(st, ast.Assign) and len(st.targets) == 1 and isinstance(st.targets[0], ast.Name):
+        return st.targets[0].id
+    return type(st).__name__
+
+
+def pin_problems(mods):
+    """Differences between alias.AliasedFactory and the text the Coq model was written for."""
+    problems = []
+    pinned = ast.parse(PINNED_ALIASED_FACTORY).body[0]
+    actual = None
+    for st in mods["alias"].tree.body:
+        if isinstance(st, ast.ClassDef) and st.name == ROOT[1]:
+            actual = st
+    if actual is None:
+        return ["class AliasedFactory not found at the top level of alias.py"]
+    head = lambda c: (ast.dump(ast.Tuple(elts=c.bases)), [ast.dump(k) for k in c.keywords], [ast.dump(d) for d in c.decorator_list])  # noqa: E731
+    if head(actual) != head(pinned):
+        problems.append("the class statement of AliasedFactory (bases / keywords / decorators) differs from the pinned one")
+    want = {_item_name(st): ast.dump(st) for st in _strip_docstrings(pinned.body)}
+    order = [_item_name(st) for st in _strip_docstrings(pinned.body)]
+    got_items = _strip_docstrings(actual.body)
+    got = {}
+    for st in got_items:
+        n = _item_name(st)
+        if n in got:
+            problems.append("AliasedFactory defines %s twice" % n)
+        got[n] = ast.dump(st)
+    for n in order:
+        if n not in got:
+            problems.append("AliasedFactory.%s is missing (the model relies on it)" % n)
+        elif got[n] != want[n]:
+            problems.append("AliasedFactory.%s differs from the source text the model was written for" % n)
+    for n in got:
+        if n not in want:
+            problems.append("AliasedFactory has an additional member %s that the model does not know" % n)
+    if not problems and [_item_name(st) for st in got_items] != order:
+        problems.append("the members of AliasedFactory are not in the pinned order")
+    # nobody else may touch the registration counter / index
+    for m in mods.values():
+        for node in ast.walk(m.tree):
+            inside_root = False
+            if isinstance(node, (ast.Attribute, ast.Name)):
+                name = node.attr if isinstance(node, ast.Attribute) else node.id
+                if name in PINNED_ATTRS and isinstance(node.ctx, (ast.Store, ast.Del)):
+                    if m.name == "alias" and any(node is x for x in ast.walk(actual)):
+                        inside_root = True
+                    if not inside_root:
+                        problems.append("%s is assigned outside class AliasedFactory (line %d of %s)" % (name, node.lineno, m.name or "__init__"))
+            if isinstance(node, ast.Constant) and node.value in PINNED_ATTRS:
+                problems.append("the string %r occurs in %s (line %d): possible indirect access" % (node.value, m.name or "__init__", node.lineno))
+    return problems
 
 
 class Module:
@@ -320,7 +440,10 @@ def extract(src_dir):
                 if item.name == "__init__":
                     init = item
                 if item.name in ("__new__", "__init_subclass__", "__class_getitem__", "__subclasshook__"):
-                    raise Unsupported("%s defines %s" % (c.name, item.name))
+                    # AliasedFactory.__init_subclass__ hands out the registration indices: its text is
+                    # pinned (pin_problems); no other class may interfere with class creation
+                    if not (c.key == ROOT and item.name == "__init_subclass__"):
+                        raise Unsupported("%s defines %s" % (c.name, item.name))
             elif isinstance(item, ast.Assign):
                 for t in item.targets:
                     if isinstance(t, ast.Name):
@@ -501,6 +624,7 @@ def extract(src_dir):
             children[classes[c.base].id].append(c.id)
     reg = dict(
         entry=entry,
+        pin_problems=pin_problems(mods),
         classes=[
             dict(id=c.id, name=c.display, qualname=c.qualname, base=(classes[c.base].id if c.base else None),
                  aliases=c.aliases, own_aliases=c.own_aliases, abstract=bool(c.abstract),
